@@ -116,6 +116,9 @@ def run(ctx):
               b"--- a/f\n+++ b/f\n@@ -1,2 +1,2 @@\n aaa\n" + l2gen.LONG_UTF8_ODD + b"\n",
               b"--- a/f\n+++ b/f\n@@ -1 +1 " + l2gen.LONG_UTF8 + b"\n-a\n+b\n",
               b"--- a/f\n+++ b/f\n@@ -99999999999999999,3 +99999999999999999,3 @@\n xxx\n-aaa\n+AAA\n yyy\n",   # hint search, huge line
+              # seeded C11-f: a hunk applied at an offset, then a hunk that states the largest line number
+              b"--- a/f\n+++ b/f\n@@ -1 +1 @@\n-bbb\n+BBB\n@@ -9223372036854775807 +9223372036854775807 @@\n-zzz\n+yyy\n",
+              b"--- a/f\n+++ b/f\n@@ -1 +1 @@\n-ccc\n+CCC\n@@ -9223372036854775806,0 +9223372036854775807 @@\n+yyy\n",
               b"", b"\n", b"@@ -1 +1 @@\n", b"--- \n+++ \n@@ -0,0 +1 @@\n+x\n", b"diff --git a b\nGIT binary patch\n"]
     cases = {"corpus": [{"strip": s, "wh": 0, "data": d} for d in corpus for s in (0, 1)]}
     cases["grammar"] = [{"strip": rng.choice([0, 1, 1, 2, 3]), "wh": rng.choice([0, 1]), "data": l2gen.gen_patch(rng)} for _ in range(2500 * k)]
